@@ -133,6 +133,18 @@ def sig_match(mod, plan, viol, entry):
     return bool(m)
 
 
+@classifier('f9g_overwrite_at_offset')
+def f9g(mod, plan, viol, entry=None):
+    """F9g: slice assignment on SEQUENCE OF/SET OF overwrites from the first selected position onwards (and
+    raises for an empty selection) instead of resizing like a list.  The check computes what THAT behaviour
+    predicts for the failing step; the violation is the known finding only if the object did exactly that.
+    Any other divergence of a slice assignment is a new violation."""
+    sig = viol['sig']
+    if len(sig) < 2 or sig[1] != 'setslice_resize':
+        return False
+    return viol.get('detail', {}).get('f9g_alt') is True
+
+
 # ---- C10: accepted values that the CER/DER encoders of the same family mishandle -------------
 
 def _c10_family(plan):
